@@ -1182,6 +1182,11 @@ class PMetropolis(Pattern):
     def __repr__(self):
         return ("PMetropolis(%s, %s, %s)" % (repr(self.notes), self.repeats, self.rests))
 
+    def reset(self):
+        super().reset()
+        self.note_index = 0
+        self.note_offset = 0
+
     def __next__(self):
         repeats = self.repeats
         if len(repeats) < len(self.notes):
